@@ -36,6 +36,7 @@ pub fn ground(which: &str) -> Option<vk::std::string::String> {
     use vk::std::collections::HashSet;
     use vk::std::format;
     use vk::std::vec::Vec;
+    if which == "tables_wf" { return Some(tables_wf()); }
     if which != "lookups" { return None; }
     // all element types reachable from ROOT through the public listing
     let mut seen: HashSet<ElementType> = HashSet::new();
@@ -133,4 +134,70 @@ pub fn ground(which: &str) -> Option<vk::std::string::String> {
         }
     }
     Some(format!("OK {} types={} sub={} attr={} ref={}", sub_inst + attr_inst + ref_inst, all.len(), sub_inst, attr_inst, ref_inst))
+}
+
+
+/// The well-formedness predicate `wf_tables()` of the Verus unit `lookups` (contracts/lookups.py), clause by clause,
+/// evaluated on the real statics.  Closed, finite statement: every stored index points inside the table it indexes,
+/// version lists fit, and group nesting is well-founded (a rank exists: the nesting height, computed here).
+#[cfg(not(kani))]
+fn tables_wf() -> vk::std::string::String {
+    use vk::std::format;
+    use vk::std::vec;
+    use vk::std::vec::Vec;
+    let (n_el, n_sub, n_attr, n_ver, n_dt, n_cd, n_ref) = (ELEMENTS.len(), SUBELEMENTS.len(), ATTRIBUTES.len(), VERSION_INFO.len(), DATATYPES.len(), CHARACTER_DATA.len(), REF_ITEMS.len());
+    let mut inst = 0u64;
+    for (t, s) in DATATYPES.iter().enumerate() {
+        inst += 6;
+        let (a, b) = (s.sub_elements.0 as usize, s.sub_elements.1 as usize);
+        if !(a <= b && b <= n_sub) { return format!("FAIL DATATYPES[{}].sub_elements = ({}, {}) is not a range inside SUBELEMENTS ({})", t, a, b, n_sub); }
+        if s.sub_element_ver as usize + (b - a) > n_ver { return format!("FAIL DATATYPES[{}]: version list {}..+{} leaves VERSION_INFO ({})", t, s.sub_element_ver, b - a, n_ver); }
+        let (a, b) = (s.attributes.0 as usize, s.attributes.1 as usize);
+        if !(a <= b && b <= n_attr) { return format!("FAIL DATATYPES[{}].attributes = ({}, {}) is not a range inside ATTRIBUTES ({})", t, a, b, n_attr); }
+        if s.attributes_ver as usize + (b - a) > n_ver { return format!("FAIL DATATYPES[{}]: attribute version list {}..+{} leaves VERSION_INFO ({})", t, s.attributes_ver, b - a, n_ver); }
+        let (a, b) = (s.ref_info.0 as usize, s.ref_info.1 as usize);
+        if !(a <= b && b <= n_ref) { return format!("FAIL DATATYPES[{}].ref_info = ({}, {}) is not a range inside REF_ITEMS ({})", t, a, b, n_ref); }
+        if let Some(c) = s.character_data { if c as usize >= n_cd { return format!("FAIL DATATYPES[{}].character_data = {} outside CHARACTER_DATA ({})", t, c, n_cd); } }
+    }
+    for (i, s) in SUBELEMENTS.iter().enumerate() {
+        inst += 1;
+        match s {
+            SubElement::Element(d) => if *d as usize >= n_el { return format!("FAIL SUBELEMENTS[{}] = Element({}) outside ELEMENTS ({})", i, d, n_el); },
+            SubElement::Group(g) => if *g as usize >= n_dt { return format!("FAIL SUBELEMENTS[{}] = Group({}) outside DATATYPES ({})", i, g, n_dt); },
+        }
+    }
+    for (d, e) in ELEMENTS.iter().enumerate() {
+        inst += 1;
+        if e.elemtype as usize >= n_dt { return format!("FAIL ELEMENTS[{}].elemtype = {} outside DATATYPES ({})", d, e.elemtype, n_dt); }
+    }
+    for (i, a) in ATTRIBUTES.iter().enumerate() {
+        inst += 1;
+        if a.1 as usize >= n_cd { return format!("FAIL ATTRIBUTES[{}] character data id {} outside CHARACTER_DATA ({})", i, a.1, n_cd); }
+    }
+    if REFERENCE_TYPE_IDX as usize >= n_cd { return format!("FAIL REFERENCE_TYPE_IDX {} outside CHARACTER_DATA", REFERENCE_TYPE_IDX); }
+    // group nesting is well-founded: rank(t) = 1 + max rank of the groups directly inside t; a cycle has no rank
+    let mut rank: Vec<i64> = vec![-1; n_dt];      // -1 unknown, -2 on the current path
+    fn visit(t: usize, rank: &mut Vec<i64>) -> Result<i64, usize> {
+        if rank[t] >= 0 { return Ok(rank[t]); }
+        if rank[t] == -2 { return Err(t); }
+        rank[t] = -2;
+        let (a, b) = (DATATYPES[t].sub_elements.0 as usize, DATATYPES[t].sub_elements.1 as usize);
+        let mut r = 0i64;
+        for i in a..b {
+            if let SubElement::Group(g) = &SUBELEMENTS[i] { let rg = visit(*g as usize, rank)?; if rg + 1 > r { r = rg + 1; } }
+        }
+        rank[t] = r;
+        Ok(r)
+    }
+    let mut maxrank = 0;
+    for t in 0..n_dt {
+        inst += 1;
+        match visit(t, &mut rank) { Ok(r) => if r > maxrank { maxrank = r; }, Err(c) => return format!("FAIL group nesting is cyclic through DATATYPES[{}] (no rank function exists)", c) }
+    }
+    // the rank found is a witness for the last clause: check it literally
+    for t in 0..n_dt {
+        let (a, b) = (DATATYPES[t].sub_elements.0 as usize, DATATYPES[t].sub_elements.1 as usize);
+        for i in a..b { if let SubElement::Group(g) = &SUBELEMENTS[i] { inst += 1; if !(rank[*g as usize] < rank[t]) { return format!("FAIL rank({}) !< rank({})", g, t); } } }
+    }
+    format!("OK {} tables: ELEMENTS={} SUBELEMENTS={} ATTRIBUTES={} VERSION_INFO={} DATATYPES={} CHARACTER_DATA={} REF_ITEMS={} max-group-depth={}", inst, n_el, n_sub, n_attr, n_ver, n_dt, n_cd, n_ref, maxrank)
 }
